@@ -338,8 +338,10 @@ class Check:
             "wall_s": round(time.time() - self.t0, 2),
             "violations": len(seen_sig),
         }
-        os.makedirs(os.path.join(VERIF, "evidence"), exist_ok=True)
-        with open(os.path.join(VERIF, "evidence", self.pid + ".json"), "w") as f:
+        # runs against an alternate checkout (VERIF_REPO) must not overwrite the real evidence
+        evdir = os.path.join(VERIF, "evidence") if REPO == "/repo" else os.path.join(BUILD, "alt-evidence")
+        os.makedirs(evdir, exist_ok=True)
+        with open(os.path.join(evdir, self.pid + ".json"), "w") as f:
             json.dump(ev, f, indent=1, default=str)
         if rc == 0 and (self.evaluations < 1 or len(self.distinct) < min_distinct or not self.samples):
             print("BROKEN-CHECK: property=%s observed nothing non-trivial (evaluations=%d distinct=%d samples=%d)"
